@@ -12,6 +12,7 @@ pub enum Scenario {
     UserShape(crate::fam_histw::UserShapeScn),
     Crash(crate::fam_crash::CrashScn),
     CrashPath(crate::fam_crash::CrashPathScn),
+    CrashBig(crate::fam_crash::CrashBigScn),
     WFault(crate::fam_wfault::WfScn),
     RFault(crate::fam_rfault::RfScn),
     Corrupt(crate::fam_corrupt::CorScn),
@@ -30,6 +31,7 @@ impl Scenario {
             Scenario::UserShape(_) => "HIST-W-USER-SHAPE",
             Scenario::Crash(_) => "CRASH",
             Scenario::CrashPath(_) => "CRASH-PATH",
+            Scenario::CrashBig(_) => "CRASH-BIG",
             Scenario::WFault(_) => "WFAULT",
             Scenario::RFault(_) => "RFAULT",
             Scenario::Corrupt(_) => "CORRUPT",
@@ -50,6 +52,7 @@ pub fn execute(s: &Scenario, ctx: &mut Ctx) {
         Scenario::UserShape(x) => crate::fam_histw::execute_user(x, ctx),
         Scenario::Crash(x) => crate::fam_crash::execute(x, ctx),
         Scenario::CrashPath(x) => crate::fam_crash::execute_path(x, ctx),
+        Scenario::CrashBig(x) => crate::fam_crash::execute_big(x, ctx),
         Scenario::WFault(x) => crate::fam_wfault::execute(x, ctx),
         Scenario::RFault(x) => crate::fam_rfault::execute(x, ctx),
         Scenario::Corrupt(x) => crate::fam_corrupt::execute(x, ctx),
